@@ -37,12 +37,13 @@ import (
 // ---------------------------------------------------------------- case description
 
 type op struct {
-	K      string `json:"k"` // value: get has set del cinc cnc cfail; store: get has set del iter
+	K      string `json:"k"` // value: get has set del cinc cnc cfail cconst kvs; store: get has set del iter iterk delp clear kvs rawset
 	Key    string `json:"key,omitempty"`
 	V      int64  `json:"v,omitempty"`
 	Prefix string `json:"prefix,omitempty"`
 	Stop   int    `json:"stop,omitempty"` // iter: callback returns false after this many entries (0 = never)
 	Back   bool   `json:"back,omitempty"`
+	Raw    string `json:"raw,omitempty"` // rawset: "valid" | "garbage" bytes written directly into the raw store
 }
 
 type initEnt struct {
@@ -144,6 +145,8 @@ type runResult struct {
 	trace  []string
 	checks int
 
+	keysOnlyOps, valueCodecCallsInKeysOnlyOps int // evidence: keys-only operations and value-codec invocations inside them
+
 	zeroLenWrites, noopWrites int // successful writes whose encoding is empty / equals the bytes already stored
 
 	wantTrace bool
@@ -194,6 +197,16 @@ func opName(target string, o op) string {
 		return t + "Compute(fails)"
 	case "iter":
 		return t + "Iterate"
+	case "iterk":
+		return t + "IterateKeys"
+	case "delp":
+		return t + "DeletePrefix"
+	case "clear":
+		return t + "Clear"
+	case "kvs":
+		return t + "KVStore"
+	case "rawset":
+		return "raw write behind " + t[:len(t)-1]
 	}
 	return t + o.K
 }
@@ -305,6 +318,10 @@ func runValue(cr caseRec, in *faultkv.Injector, st kvstore.KVStore, inner kvstor
 				err = tv.Set(o.V)
 			case "del":
 				err = tv.Delete()
+			case "kvs":
+				if tv.KVStore() != st {
+					err = errors.New("KVStore() does not return the store the TypedValue was built on")
+				}
 			case "cinc", "cnc", "cfail", "cconst":
 				gotV, err = tv.Compute(func(c int64, ex bool) (int64, error) {
 					fnCalls++
@@ -385,6 +402,10 @@ func runValue(cr caseRec, in *faultkv.Injector, st kvstore.KVStore, inner kvstor
 					} else if gotV != cur {
 						bad("wrong-result", fmt.Sprintf("returned %d, raw key holds %d", gotV, cur))
 					}
+				}
+			case "kvs":
+				if err != nil {
+					bad("wrong-result", err.Error())
 				}
 			case "has":
 				if err != nil {
@@ -475,6 +496,7 @@ type kvp struct {
 
 func runStore(cr caseRec, in *faultkv.Injector, st kvstore.KVStore, inner kvstore.KVStore, model map[string][]byte, res *runResult) {
 	cd := codecOf(cr)
+	var valueCodecCalls int // invocations of the value codec (evidence only, never a verdict)
 	ts := kvstore.NewTypedStore[string, int64](st,
 		func(k string) ([]byte, error) {
 			if err := in.FailHere("enc.key"); err != nil {
@@ -489,12 +511,14 @@ func runStore(cr caseRec, in *faultkv.Injector, st kvstore.KVStore, inner kvstor
 			return decK(b)
 		},
 		func(v int64) ([]byte, error) {
+			valueCodecCalls++
 			if err := in.FailHere("enc.value"); err != nil {
 				return nil, err
 			}
 			return cd.enc(v), nil
 		},
 		func(b []byte) (int64, int, error) {
+			valueCodecCalls++
 			if err := in.FailHere("dec.value"); err != nil {
 				return 0, 0, err
 			}
@@ -514,6 +538,18 @@ func runStore(cr caseRec, in *faultkv.Injector, st kvstore.KVStore, inner kvstor
 		if o.Back {
 			dir = kvstore.IterDirectionBackward
 		}
+		if o.K == "iterk" {
+			// keys-only: the result depends on the raw key iteration and the key codec alone
+			inner.IterateKeys([]byte(o.Prefix), func(k []byte) bool {
+				kk, _, e1 := decK(k)
+				if e1 != nil {
+					expErr = true
+					return false
+				}
+				exp = append(exp, kvp{kk, 0})
+				return o.Stop == 0 || len(exp) < o.Stop
+			}, dir)
+		}
 		if o.K == "iter" {
 			inner.Iterate([]byte(o.Prefix), func(k, v []byte) bool {
 				kk, _, e1 := decK(k)
@@ -528,6 +564,8 @@ func runStore(cr caseRec, in *faultkv.Injector, st kvstore.KVStore, inner kvstor
 		}
 
 		f0 := in.FiredCount()
+		vc0 := valueCodecCalls
+		var gotKVS kvstore.KVStore
 		var err error
 		var gotV int64
 		var gotHas bool
@@ -547,9 +585,39 @@ func runStore(cr caseRec, in *faultkv.Injector, st kvstore.KVStore, inner kvstor
 					cbs = append(cbs, kvp{k, v})
 					return o.Stop == 0 || len(cbs) < o.Stop
 				}, dir)
+			case "iterk":
+				err = ts.IterateKeys([]byte(o.Prefix), func(k string) bool {
+					cbs = append(cbs, kvp{k, 0})
+					return o.Stop == 0 || len(cbs) < o.Stop
+				}, dir)
+			case "delp":
+				err = ts.DeletePrefix([]byte(o.Prefix))
+			case "clear":
+				err = ts.Clear()
+			case "kvs":
+				gotKVS = ts.KVStore()
+			case "rawset":
+				// an entry written behind the typed layer's back (not an operation of the typed store)
+				b := cd.enc(o.V)
+				if o.Raw == "garbage" {
+					b = garbageBytes
+				}
+				inner.Set([]byte(o.Key), b)
+				model[o.Key] = append([]byte(nil), b...)
 			}
 		})
 		fired := in.Fired()[f0:]
+		keysOnly := o.K == "iterk" || o.K == "has" || o.K == "del" || o.K == "delp" || o.K == "clear"
+		if keysOnly {
+			res.keysOnlyOps++
+			res.valueCodecCallsInKeysOnlyOps += valueCodecCalls - vc0
+		}
+		if keysOnly && len(fired) > 0 && strings.HasSuffix(fired[0].Kind, ".value") {
+			// the result of a keys-only operation does not depend on the value codec: a value-codec
+			// failure (should the implementation consult it at all) must not change the outcome
+			res.ctx = append(res.ctx, name+"@"+fired[0].Kind+"(irrelevant)")
+			fired = nil
+		}
 		label := "nofault"
 		if len(fired) > 0 {
 			label = "fault@" + fired[0].Kind
@@ -585,11 +653,16 @@ func runStore(cr caseRec, in *faultkv.Injector, st kvstore.KVStore, inner kvstor
 				bad("error-not-reported", fmt.Sprintf("%s failed at site %d but the call returned err=nil", fired[0].Kind, fired[0].Site))
 			} else if !errors.Is(err, faultkv.ErrInjected) {
 				bad("wrong-error", fmt.Sprintf("%s failed but the returned error %q does not carry the injected failure", fired[0].Kind, errStr(err)))
-			} else if o.K == "iter" && !isPrefix() {
+			} else if (o.K == "iter" || o.K == "iterk") && !isPrefix() {
 				bad("callback-after-error", fmt.Sprintf("callbacks %v are not a prefix of the raw entries %v: iteration went on after the failure", cbs, exp))
 			}
-		case keyErr != nil:
-			if err == nil && o.K != "iter" {
+		case o.K == "rawset":
+		case o.K == "kvs":
+			if gotKVS != st {
+				bad("wrong-result", "KVStore() does not return the store the TypedStore was built on")
+			}
+		case keyErr != nil && (o.K == "get" || o.K == "has" || o.K == "set" || o.K == "del"):
+			if err == nil {
 				bad("error-not-reported", "key codec failed but the call returned nil")
 			}
 		default:
@@ -638,7 +711,25 @@ func runStore(cr caseRec, in *faultkv.Injector, st kvstore.KVStore, inner kvstor
 				} else {
 					delete(model, string(kb))
 				}
-			case "iter":
+			case "delp":
+				if err != nil {
+					bad("spurious-error", "DeletePrefix failed: "+errStr(err))
+				} else {
+					for k := range model {
+						if strings.HasPrefix(k, o.Prefix) {
+							delete(model, k)
+						}
+					}
+				}
+			case "clear":
+				if err != nil {
+					bad("spurious-error", "Clear failed: "+errStr(err))
+				} else {
+					for k := range model {
+						delete(model, k)
+					}
+				}
+			case "iter", "iterk":
 				if expErr && err == nil {
 					bad("error-not-reported", fmt.Sprintf("an entry under prefix %q cannot be decoded but Iterate returned nil (callbacks %v)", o.Prefix, cbs))
 				} else if !expErr && err != nil {
@@ -708,6 +799,9 @@ func genValueCase(rng *rand.Rand) caseRec {
 		if k == "set" || k == "cconst" {
 			o.V = genVal(rng, cr.Codec)
 		}
+		if rng.Intn(30) == 0 {
+			o = op{K: "kvs"}
+		}
 		cr.Ops = append(cr.Ops, o)
 	}
 	return cr
@@ -728,7 +822,7 @@ func genStoreCase(rng *rand.Rand) caseRec {
 		}
 	}
 	if rng.Intn(5) == 0 {
-		cr.Init = append(cr.Init, initEnt{Key: []string{"a!", "b!", "aa!"}[rng.Intn(3)], State: "present", V: 7})
+		cr.Init = append(cr.Init, initEnt{Key: []string{"a!", "b!", "aa!"}[rng.Intn(3)], State: []string{"present", "garbage"}[rng.Intn(2)], V: 7})
 	}
 	n := 1 + rng.Intn(8)
 	for i := 0; i < n; i++ {
@@ -746,8 +840,23 @@ func genStoreCase(rng *rand.Rand) caseRec {
 			o = op{K: "set", Key: key, V: genVal(rng, cr.Codec)}
 		case r < 6:
 			o = op{K: "del", Key: key}
-		default:
+		case r < 8:
 			o = op{K: "iter", Prefix: []string{"", "a", "b", "ab"}[rng.Intn(4)], Stop: []int{0, 0, 1, 2}[rng.Intn(4)], Back: rng.Intn(3) == 0}
+		default:
+			o = op{K: "iterk", Prefix: []string{"", "a", "b", "ab"}[rng.Intn(4)], Stop: []int{0, 0, 1, 2}[rng.Intn(4)], Back: rng.Intn(3) == 0}
+		}
+		switch rng.Intn(16) {
+		case 0:
+			o = op{K: "delp", Prefix: []string{"", "a", "b", "ab"}[rng.Intn(4)]}
+		case 1:
+			if rng.Intn(2) == 0 {
+				o = op{K: "clear"}
+			} else {
+				o = op{K: "kvs"}
+			}
+		case 2, 3:
+			// an entry written behind the typed layer's back: valid or undecodable value under a decodable or undecodable key
+			o = op{K: "rawset", Key: []string{"a", "ab", "b", "a!", "b!"}[rng.Intn(5)], V: genVal(rng, cr.Codec), Raw: []string{"valid", "garbage", "garbage"}[rng.Intn(3)]}
 		}
 		cr.Ops = append(cr.Ops, o)
 	}
@@ -757,6 +866,7 @@ func genStoreCase(rng *rand.Rand) caseRec {
 type stats struct {
 	runs, faultRuns, fired, checks, histories int
 	zeroLen, noop                             int
+	keysOnly, vcInKeysOnly                    int
 	ctx                                       map[string]int
 	viols                                     []pending
 }
@@ -777,6 +887,8 @@ func record(st *stats, r runResult, cr caseRec) {
 	st.checks += r.checks
 	st.fired += len(r.fired)
 	st.zeroLen += r.zeroLenWrites
+	st.keysOnly += r.keysOnlyOps
+	st.vcInKeysOnly += r.valueCodecCallsInKeysOnlyOps
 	st.noop += r.noopWrites
 	for _, x := range r.ctx {
 		st.ctx[x]++
@@ -844,6 +956,8 @@ func merge(c *vf.Ctx, st *stats) {
 	c.Count("faults_injected", st.fired)
 	c.Count("steps_checked", st.checks)
 	c.Count("zero_length_encodings_written", st.zeroLen)
+	c.Count("keys_only_ops", st.keysOnly)
+	c.Count("value_codec_calls_inside_keys_only_ops", st.vcInKeysOnly)
 	c.Count("noop_writes_same_bytes", st.noop)
 	for k, v := range st.ctx {
 		c.Count("fault:"+k, v)
@@ -1290,7 +1404,7 @@ func run(c *vf.Ctx) {
 		replay(c)
 		return
 	}
-	c.SetRule("sequential: a history (TypedValue: all of length <= 4 (quick) / 5 (thorough) plus seeded ones of length 1-8; TypedStore: seeded, length 1-8, three keys sharing prefixes, initial raw state absent/present/undecodable value/undecodable key) is run fault-free to learn its N fallible sites (store calls and codec calls in one numbering), then N times with site i failing (plus seeded pairs of sites); one evaluation = one such run; distinct_nontrivial = distinct (history, failing site) in which the fault actually fired; fault_contexts = distinct (method, kind of failing site). concurrent: one evaluation = one operation executed while 2-8 goroutines share one TypedValue")
+	c.SetRule("sequential: a history (TypedValue: all of length <= 4 (quick) / 5 (thorough) plus seeded ones of length 1-8; TypedStore: seeded, length 1-8 over every exported method (Get, Has, Set, Delete, Iterate, IterateKeys, DeletePrefix, Clear, KVStore) plus raw writes behind the typed layer, three keys sharing prefixes, raw entries absent/present/undecodable value/undecodable key/both) is run fault-free to learn its N fallible sites (store calls and codec calls in one numbering), then N times with site i failing (plus seeded pairs of sites); one evaluation = one such run; distinct_nontrivial = distinct (history, failing site) in which the fault actually fired; fault_contexts = distinct (method, kind of failing site). concurrent: one evaluation = one operation executed while 2-8 goroutines share one TypedValue")
 	sequentialPart(c)
 	c.SetExhaustive(false)
 	for _, race := range []bool{false, true} {
@@ -1318,7 +1432,8 @@ func run(c *vf.Ctx) {
 	}
 	c.Require("evaluations", 20000)
 	c.Require("nontrivial", 10000)
-	c.Require("fault_contexts", 27)
+	c.Require("fault_contexts", 31) // + IterateKeys@{store.IterateKeys, dec.key}, DeletePrefix@store.DeletePrefix, Clear@store.Clear
+	c.Require("keys_only_ops", 10000)
 	c.Require("zero_length_encodings_written", 1000)
 	c.Require("noop_writes_same_bytes", 1000)
 	c.Require("compute_only_calls", 10000)
